@@ -154,6 +154,7 @@ ApplyQueryB(sid, rawq) ==
                     string |-> JoinStr(FormatSegs(i, new), "/"), branch |-> b, q |-> <<>>]
       searchy == HasSymbolTok(sid.string \o "?" \o qt)
   IN IF rawq = <<>> THEN [type |-> sid.type, fields |-> sid.fields, string |-> sid.string, branch |-> "NoQuery", q |-> <<>>]
+     ELSE IF sid.type = "" /\ sid.string # "" THEN keep("UntypedString")   \* only typed Sids and the empty string take a query
      ELSE IF nt = {}                 THEN keep("NoType")
      ELSE IF Cardinality(nt) = 1     THEN app(MinOf(nt), "OneType")
      ELSE IF sid.type # "" /\ IdxOf(sid.type) \in nt THEN app(IdxOf(sid.type), "ManyKeepsOld")
@@ -230,8 +231,10 @@ ExpandOne(f) ==
         LET rootEnd == IF FirstStar(f.segs) = {} THEN Len(f.segs) ELSE MinOf(FirstStar(f.segs)) - 1
             rt == ResolveFirst(SubSeq(f.segs, 1, rootEnd))
             ts == AllTypesOf(f.segs)
-        IN IF rt.type = "" \/ ts = {}      \* simple_typing falls back to ONE natural typing of the whole string
-           THEN [err |-> "", res |-> {ApplyQueryB(ResolveFirst(f.segs), f.pairs)}]
+        \* an untypable string denotes nothing.  (The code falls back to Sid(whole string), whose
+        \*  query is then applied to EMPTY fields, so 'junk?project=hamlet' unfolds to the Sid
+        \*  'hamlet': finding F19.)
+        IN IF rt.type = "" \/ ts = {} THEN [err |-> "", res |-> {}]
            ELSE [err |-> "", res |-> {MkTyped(i, f.segs, f.pairs) : i \in ts}]
      ELSE IF Cardinality(inner) > 1 THEN [err |-> "spil", res |-> {}]
      ELSE LET p == CHOOSE p \in inner : TRUE
@@ -243,12 +246,13 @@ ExpandOne(f) ==
                       need(i) == IF Len(Templates[i].ph) - cur < 0 THEN 0 ELSE Len(Templates[i].ph) - cur
                       tests == {Fill(f.segs, p, need(i)) : i \in leafT}
                   IN [err |-> "", res |-> UNION {{MkTyped(i, t, f.pairs) : i \in {j \in AllTypesOf(t) : LastKey(j) = lk}} : t \in tests}]
-\* get_with(query=narrowing) re-applies a still unapplied query together with the narrowing pairs
+\* A search whose query could not be applied is left alone (it is pruned afterwards): narrowing
+\* must not re-apply the user's query, or its optional value would override the user's filter
+\* (finding F18: 'hamlet/**?type=a' used to return the shot searches as well).
 NarrowOne(s) ==
-  IF s.type = "" THEN s
+  IF s.type = "" \/ s.q # <<>> THEN s
   ELSE LET np == NarrowPairs(BaseOfName(s.type))
-       IN IF np = <<>> THEN s
-          ELSE ApplyQueryB([type |-> s.type, fields |-> s.fields, string |-> JoinStr(DVals(s.fields), "/")], s.q \o np)
+       IN IF np = <<>> THEN s ELSE ApplyQueryB(StripBranch(s), np)
 \* the typed searches a search expression denotes: set of [type, segs]
 Unfold(search) ==
   LET ex == {ExpandOne(f) : f \in Flat(search)}
